@@ -31,10 +31,12 @@ func runC09(p *Program, r *Report) {
 	ruleR094(p, r)
 }
 
-func ruleR091(p *Program, r *Report) {
+func ruleR091(p *Program, r *Report) { ruleHashedPlaintext(p, r, "R09.1") }
+
+func ruleHashedPlaintext(p *Program, r *Report, rule string) {
 	gen := p.FuncObj("hmac.GenerateHMAC")
 	if gen == nil {
-		r.Anchor("R09.1", "hmac.GenerateHMAC")
+		r.Anchor(rule, "hmac.GenerateHMAC")
 		return
 	}
 	n := 0
@@ -65,7 +67,7 @@ func ruleR091(p *Program, r *Report) {
 					bad = leaf.String()
 				}
 			}
-			r.Check(bad == "", "R09.1", name, "GenerateHMAC key ("+operandText(p, cs.Instr)+")", p.Pos(cs.Instr.Pos()), "key = GetHMACSecretKey(id)", "the blind index is keyed with something other than the client's search key: "+bad)
+			r.Check(bad == "", rule, name, "GenerateHMAC key ("+operandText(p, cs.Instr)+")", p.Pos(cs.Instr.Pos()), "key = GetHMACSecretKey(id)", "the blind index is keyed with something other than the client's search key: "+bad)
 			// plaintext, not envelope: if the function tests MatchDataSignature(x), the hash on the matched edge must take the Process result
 			for _, m := range callsIn(fn) {
 				mc, ok := m.Instr.(*ssa.Call)
@@ -93,13 +95,13 @@ func ruleR091(p *Program, r *Report) {
 							}
 						}
 					}
-					r.Check(fromProcess, "R09.1", name, "hash of an already protected value uses its plaintext", p.Pos(cs.Instr.Pos()), "GenerateHMAC(key, Process(data))", "on the 'already an envelope' edge the blind index is computed over the envelope bytes: the stored hash never equals the hash of the searched plaintext")
+					r.Check(fromProcess, rule, name, "hash of an already protected value uses its plaintext", p.Pos(cs.Instr.Pos()), "GenerateHMAC(key, Process(data))", "on the 'already an envelope' edge the blind index is computed over the envelope bytes: the stored hash never equals the hash of the searched plaintext")
 				}
 			}
 		}
 	}
 	if n < 6 {
-		r.Bad("R09.1", "hmac", "GenerateHMAC call sites", "-", "fewer blind-index computations found than the six confirmed by reading")
+		r.Bad(rule, "hmac", "GenerateHMAC call sites", "-", "fewer blind-index computations found than the six confirmed by reading")
 	}
 }
 
